@@ -228,6 +228,11 @@ func main() {
 				os.Exit(2)
 			}
 		}
+		if os.Getenv("TWLIST") != "" {
+			for _, o := range res.sink.Obls {
+				fmt.Printf("  %-10s %s|%s at %s\n", o.StatusText, o.Rule, o.Key, o.Pos)
+			}
+		}
 		if !*quiet {
 			tot, dis := 0, 0
 			for _, o := range res.sink.Obls {
